@@ -36,7 +36,9 @@ def evaluate(case, out):
     real = [b for b in case["ballots"] if b is not None]
     out.cls(f"n={len(cands)}", case["asn"], "hint" if case["order_hint"] else "no-hint")
     try:
-        res, f = run_raire(case)
+        res, f = run_raire(case, earlier_search=(len(case["ballots"]) % 2 == 0))
+        if len(case["ballots"]) % 2 == 0:
+            out.cls("after-an-earlier-search-with-the-other-difficulty-function")
     except Exception as e:  # noqa
         out.lib_exception("compute_raire_assertions", e)
         return
@@ -48,6 +50,13 @@ def evaluate(case, out):
     if opt is None or not res or any(as_tuple(a) is None for a in res):
         out.skip("audit-impossible-or-malformed(C04)")
         return
+    key = {(t[0], t[1], t[2], t[3]): t for t in true}
+    for a in res:
+        m = as_tuple(a)
+        ref = key.get((m[0], m[1], m[2], m[3]))
+        if ref is not None:
+            out.expect(abs(m[6] - ref[6]) <= 1e-9 * max(1.0, abs(ref[6])), "reported-difficulty!=difficulty-function-on-true-tallies",
+                       lambda: {"assertion": m[:4], "reported": m[6], "recomputed": ref[6]})
     got = max(a.difficulty for a in res)
     out.expect(abs(got - opt) <= 1e-9 * max(1.0, abs(opt)), "largest-difficulty!=minimax-optimum",
                lambda: {"returned": got, "optimum": opt, "assertions": [a.to_str() for a in res]})
